@@ -303,6 +303,16 @@ struct Lim
       // always: sizes never exceed max_size, the allocator was never asked for more
       if (pv != 0)
       {
+        // max_size () itself must be representable: a container of max_size () elements must have
+        // end () - begin () == size () in its own difference_type, and cannot exceed what the allocator offers
+        typedef typename V::difference_type DT;
+        const unsigned long long dmax = static_cast<unsigned long long> ((std::numeric_limits<DT>::max) ());
+        const unsigned long long amax = static_cast<unsigned long long> (std::allocator_traits<AL>::max_size (pv->get_allocator ()));
+        if (mx > dmax || mx > amax)
+          fail ("limits.max_size_unrepresentable", "%s: max_size () = %llu exceeds min (allocator max_size %llu, difference_type max %llu)", what, mx, amax, dmax);
+        if (static_cast<long long> (pv->end () - pv->begin ()) != static_cast<long long> (pv->size ()))
+          fail ("limits.iterator_distance_wrapped", "%s: end () - begin () = %lld but size () = %llu", what,
+                static_cast<long long> (pv->end () - pv->begin ()), static_cast<unsigned long long> (pv->size ()));
         if (static_cast<unsigned long long> (pv->size ()) > mx)
           fail ("limits.size_over_max", "%s: size () = %llu exceeds max_size ()", what, static_cast<unsigned long long> (pv->size ()));
         if (pv->size () > pv->capacity ())
